@@ -14,11 +14,6 @@ Unit(k) == [i \in 1 .. 4 |-> IF i = k THEN 1 ELSE 0]
 Plus(m, n)  == <<m[1] + n[1], m[2] + n[2], m[3] + n[3], m[4] + n[4]>>
 Minus(m, n) == <<m[1] - n[1], m[2] - n[2], m[3] - n[3], m[4] - n[4]>>
 Leq(n, m)   == n[1] <= m[1] /\ n[2] <= m[2] /\ n[3] <= m[3] /\ n[4] <= m[4]
-(* all ways of writing m = m1 + m2, as a sequence (precomputed once: a constant-level definition) *)
-RECURSIVE SetToSeq(_)
-SetToSeq(S) == IF S = {} THEN << >> ELSE LET x == CHOOSE y \in S : TRUE IN <<x>> \o SetToSeq(S \ {x})
-Splits == [m \in Mons |-> SetToSeq({n \in Mons : Leq(n, m)})]
-
 JZero      == [m \in Mons |-> 0]
 JConst(c)  == [m \in Mons |-> IF m = M0 THEN c ELSE 0]
 JVal(f)    == f[M0]
@@ -27,10 +22,18 @@ JSub(f, g) == [m \in Mons |-> Sb(f[m], g[m])]
 JNeg(f)    == [m \in Mons |-> Ng(f[m])]
 JScale(c, f) == [m \in Mons |-> Mu(c, f[m])]
 
-RECURSIVE ConvAt(_, _, _, _)
-ConvAt(f, g, m, k) == \* sum over the first k splits of m
-    IF k = 0 THEN 0 ELSE Ad(Mu(f[Splits[m][k]], g[Minus(m, Splits[m][k])]), ConvAt(f, g, m, k - 1))
-JMul(f, g) == [m \in Mons |-> ConvAt(f, g, m, Len(Splits[m]))]
+(* truncated product: the coefficient of m collects f[m1] g[m2] over m1 + m2 = m; written out by degree *)
+Deg(m) == m[1] + m[2] + m[3] + m[4]
+K1(m)  == CHOOSE k \in 1 .. 4 : m[k] > 0 /\ \A j \in 1 .. k - 1 : m[j] = 0          \* first variable of m
+K2(m)  == IF m[K1(m)] = 2 THEN K1(m) ELSE CHOOSE k \in 1 .. 4 : k > K1(m) /\ m[k] > 0   \* the other one (degree 2)
+E(k)   == <<IF k = 1 THEN 1 ELSE 0, IF k = 2 THEN 1 ELSE 0, IF k = 3 THEN 1 ELSE 0, IF k = 4 THEN 1 ELSE 0>>
+JMul(f, g) ==
+    [m \in Mons |->
+        IF Deg(m) = 0 THEN Mu(f[M0], g[M0])
+        ELSE IF Deg(m) = 1 THEN Ad(Mu(f[M0], g[m]), Mu(f[m], g[M0]))
+        ELSE LET a == E(K1(m)) b == E(K2(m))
+             IN  Ad(Ad(Mu(f[M0], g[m]), Mu(f[m], g[M0])),
+                    IF K1(m) = K2(m) THEN Mu(f[a], g[a]) ELSE Ad(Mu(f[a], g[b]), Mu(f[b], g[a])))]
 
 (* 1/f for f with invertible constant term: (1/f0) (1 - u + u^2), u = f/f0 - 1 (u^3 is beyond the truncation) *)
 JInv(f) == LET i0 == Inv(f[M0])
